@@ -6,34 +6,36 @@ Require Import RV.Proofs.PyStrLemmas RV.Proofs.PathProofs RV.Proofs.RightsProofs
 Require RV.Gen.RightsGen RV.Gen.RightsVerifyGen.
 Open Scope list_scope. Open Scope N_scope.
 
-Lemma c04_verify_user : forall t, RightsVerifyGen.verify_user t = false <-> t = str "none".
+Lemma c04_verify_user : forall t, RightsVerifyGen.verify_user t = false <-> t = Some (str "none").
 Proof.
-  intros t. rewrite Gen_verify_user_eq. unfold verify_user.
-  rewrite negb_false_iff. apply eqs_eq.
+  intros t. rewrite Gen_verify_user_eq. unfold verify_user. destruct t as [t|].
+  - rewrite negb_false_iff, eqs_eq. split; [intros ->; reflexivity|intros H; inversion H; reflexivity].
+  - split; discriminate.
 Qed.
 
-Lemma verify_user_on : forall t, t <> str "none" -> RightsVerifyGen.verify_user t = true.
+Lemma verify_user_on : forall t, t <> Some (str "none") -> RightsVerifyGen.verify_user t = true.
 Proof.
   intros t Ht. destruct (RightsVerifyGen.verify_user t) eqn:E; [reflexivity|].
   apply c04_verify_user in E. contradiction.
 Qed.
 
-(* with EVERY auth type other than "none" (htpasswd, remote_user, http_x_remote_user, ldap, a custom module ...)
+(* with EVERY auth type other than "none" (htpasswd, remote_user, http_x_remote_user, ldap, a custom module, a callable ...)
    the anonymous user gets nothing, on every path *)
-Lemma c04_anonymous_nothing_auth : forall t p, t <> str "none" ->
+Lemma c04_anonymous_nothing_auth : forall t p, t <> Some (str "none") ->
   RightsGen.authorization_owner_only (RightsVerifyGen.verify_user t) [] p = []
   /\ RightsGen.authorization_owner_write (RightsVerifyGen.verify_user t) [] p = []
   /\ RightsGen.authorization_authenticated (RightsVerifyGen.verify_user t) [] p = [].
 Proof. intros t p Ht. rewrite (verify_user_on t Ht). apply c04_anonymous_nothing. Qed.
 
 (* ... and owner_only grants nothing inside another user's home *)
-Lemma c04_no_foreign_home_auth : forall t u o rest tr, t <> str "none" -> Forall safe (o :: rest) ->
+Lemma c04_no_foreign_home_auth : forall t u o rest tr, t <> Some (str "none") -> Forall safe (o :: rest) ->
   (tr = [] \/ tr = [slash]) -> o <> u ->
   RightsGen.authorization_owner_only (RightsVerifyGen.verify_user t) u (render (o :: rest) ++ tr) = [].
 Proof. intros t u o rest tr Ht. rewrite (verify_user_on t Ht). apply c04_no_foreign_home. Qed.
 
 Example ex_verify_user :
-  RightsVerifyGen.verify_user (str "none") = false /\ RightsVerifyGen.verify_user (str "remote_user") = true
-  /\ RightsVerifyGen.verify_user (str "http_x_remote_user") = true /\ RightsVerifyGen.verify_user (str "htpasswd") = true
-  /\ RightsVerifyGen.verify_user (str "None") = true /\ RightsVerifyGen.verify_user [] = true.
+  RightsVerifyGen.verify_user (Some (str "none")) = false /\ RightsVerifyGen.verify_user (Some (str "remote_user")) = true
+  /\ RightsVerifyGen.verify_user (Some (str "http_x_remote_user")) = true /\ RightsVerifyGen.verify_user (Some (str "htpasswd")) = true
+  /\ RightsVerifyGen.verify_user (Some (str "None")) = true /\ RightsVerifyGen.verify_user (Some []) = true
+  /\ RightsVerifyGen.verify_user None = true.   (* a callable auth plugin: verification stays on *)
 Proof. vm_compute. repeat split. Qed.
